@@ -25,7 +25,7 @@ CHECKS = {
             "R-bls decides exact set equality when small; approximate BitLengthSet equality may err towards equality as the statement allows"),
     "C03": ("M-conserve event log inside the real builder (emitted = committed at finalize) + expected-signature oracle from the description + metamorphic comparison across formatting policies + canonical re-rendering round trip",
             "doc comments asserted only for unambiguous placements; statements are never indented"),
-    "C04": ("reference-evaluator monitor (R-expr, exact rationals, own precedence table) on the value object recorded at the real directive handler and on @print text; injected undefined sub-expressions must be rejected",
+    "C04": ("reference-evaluator monitor (R-expr, exact rationals, own precedence table) on the value object recorded at the real directive handler and on @print text; injected undefined sub-expressions must be rejected; metamorphic operand-order monitor (swapped operands of set literals / commutative set operators: same outcome, same printed text)",
             "R-expr is the trusted evaluator; results the Specification does not pin are not compared; bounded exponents"),
     "C12": ("icontract postcondition (M-const) on the real Constant.__init__ + complete boundary grid with accept/reject and exact stored-value oracle",
             "acceptance rules as restated in the property; exhaustive=true refers to the finite boundary grid only"),
@@ -33,11 +33,11 @@ CHECKS = {
             "mutants that could only exhaust resources are dropped and counted; UTF-8 text only"),
     "C17": ("fault/@print injection at known lines and depths (incl. references misspelled in letter case only); M-tax on Error.path/line and M-print (evaluations recorded at the real directive handler vs deliveries to the user handler)",
             "finalize-time errors carry no line by design: only their path is checked"),
-    "C09": ("unique-id constants make every resolution observable; R-resolve reference on generated dependency graphs, read_namespace vs read_files in random target orders, 15 injected error shapes, histories re-using one lookup list object across reads",
+    "C09": ("unique-id constants make every resolution observable; R-resolve reference on generated dependency graphs, read_namespace vs read_files in random target orders, 15 injected error shapes, histories re-using one lookup list object across reads, valid chains read head first vs leaf first under the default recursion limit",
             "R-resolve restates the resolution rule of the property"),
     "C10": ("R-order reference + determinism under injected perturbation: sub-processes with different PYTHONHASHSEED, seeded shuffling wrapper on Path.rglob, equivalent argument spellings/orders/duplicates/symlinks/container forms (incl. one-shot iterables); signatures compared byte for byte; duplicate-file and symlinked-definition-file experiments (one composite per directory entry)",
             "only accept/reject and successful results are compared (which of several errors is reported may depend on order)"),
-    "C11": ("pairwise rule predicate (exactly the statement's) as oracle over generated definition families in target and referenced-lookup placement; two-definition sub-space enumerated in the thorough tier",
+    "C11": ("pairwise rule predicate (exactly the statement's) as oracle over generated definition families in target and referenced-lookup placement; two-definition sub-space enumerated in the thorough tier; same-version twins (two files spelling one name and version)",
             "unregulated port-IDs (regulated ranges belong to C05)"),
     "C15": ("R-path oracle (identity parsed from the path by the harness) over a matrix of ~27 target/root designations with cwd changes (documented forms must succeed, off-form ones may only fail with InvalidDefinitionError); agreement of all succeeding designations; malformed names must be rejected; symlinked definition files named by their own entry",
             "numbers in file names are plain ASCII decimal numbers (leading zeros not judged); undocumented mixed designations may fail"),
